@@ -88,3 +88,80 @@ func VerifC15ParseSplit() {
 	}
 	verifrt.Reach("end")
 }
+
+const vDir = "/state"
+const vNow = 1700000000
+
+// VerifC15Tickets: lemma X5 – a ticket is handed out at most once (also across a
+// restart of the client), an expired or absent ticket yields nil (fallback to UniformDH).
+func VerifC15Tickets() {
+	verifrt.SetClock(vNow)
+	store, err := loadTicketStore(vDir)
+	verifrt.Assert(err == nil && store != nil, "an absent ticket file is an empty store")
+	addr := verifrt.Addr{S: "192.0.2.9:443"}
+	other := verifrt.Addr{S: "192.0.2.10:443"}
+	t0, err := store.getTicket(addr)
+	verifrt.Assert(t0 == nil && err == nil, "no ticket: fall back to UniformDH")
+	raw := verifrt.Bytes("ticket", ticketKeyLength+ticketLength)
+	store.storeTicket(addr, raw)
+	store.storeTicket(other, verifrt.Bytes("ticket2", ticketKeyLength+ticketLength))
+	age := []int64{0, ticketLifetime - 1, ticketLifetime, ticketLifetime + 5}[verifrt.Pick("age_class", 0, 3)]
+	verifrt.SetClock(vNow + age)
+	if verifrt.Bool("restart_before_use") {
+		store, err = loadTicketStore(vDir)
+		verifrt.Assert(err == nil, "the ticket file loads")
+	}
+	t1, err := store.getTicket(addr)
+	verifrt.Assert(err == nil, "getTicket succeeds")
+	if age < ticketLifetime {
+		verifrt.Reach("valid ticket")
+		verifrt.Assert(t1 != nil, "a valid ticket is returned")
+		if t1 != nil {
+			verifrt.Assert(verifrt.Equal(t1.key[:], raw[:ticketKeyLength]) && verifrt.Equal(t1.ticket[:], raw[ticketKeyLength:]), "exactly the stored key and ticket")
+		}
+	} else {
+		verifrt.Reach("expired ticket")
+		verifrt.Assert(t1 == nil, "an expired ticket is never used")
+	}
+	t2, _ := store.getTicket(addr)
+	verifrt.Assert(t2 == nil, "a ticket is used for at most one handshake")
+	// ... also after a restart of the client: the used ticket is gone from the file
+	store2, err := loadTicketStore(vDir)
+	verifrt.Assert(err == nil, "the ticket file loads after use")
+	t3, _ := store2.getTicket(addr)
+	verifrt.Assert(t3 == nil, "a used ticket is not presented again after a restart")
+	if age < ticketLifetime {
+		t4, _ := store2.getTicket(other)
+		verifrt.Assert(t4 != nil, "tickets for other bridges are kept")
+	}
+	verifrt.Reach("end")
+}
+
+// VerifC15TicketCrash: lemma F4 (C18) – the ticket store operations killed at any
+// file-system step: the client factory still starts (at worst tickets are forgotten).
+func VerifC15TicketCrash() {
+	verifrt.SetClock(vNow)
+	store, err := loadTicketStore(vDir)
+	verifrt.Assume(err == nil)
+	addr := verifrt.Addr{S: "192.0.2.9:443"}
+	store.storeTicket(addr, verifrt.Bytes("ticket", ticketKeyLength+ticketLength))
+	n1 := verifrt.FSSteps()
+	k := verifrt.Pick("crash_step", 0, 4)
+	torn := verifrt.Bool("torn_write")
+	verifrt.CrashAt(n1+k, torn)
+	op := verifrt.Pick("operation", 0, 1)
+	crashed := verifrt.RunUntilCrash(func() {
+		if op == 0 {
+			store.storeTicket(verifrt.Addr{S: "192.0.2.10:443"}, verifrt.Bytes("ticket2", ticketKeyLength+ticketLength))
+		} else {
+			_, _ = store.getTicket(addr)
+		}
+	})
+	verifrt.CrashAt(-1, false)
+	if crashed {
+		verifrt.Reach("crashed")
+	}
+	cf, err := (&Transport{}).ClientFactory(vDir)
+	verifrt.Assert(err == nil && cf != nil, "persisted client state never blocks start-up")
+	verifrt.Reach("end")
+}
